@@ -209,6 +209,18 @@ fn xml_mutations(orig: &[u8], thorough: bool) -> Vec<(String, Vec<u8>)> {
             m.extend_from_slice(&bytes[end..]);
             v.push((format!("xml-attr:{attr_no}:{h}"), m));
         }
+        // a two-byte character in place of two ASCII characters, at every
+        // position of the value (byte length preserved)
+        if end - start <= 160 {
+            for i in start..end.saturating_sub(1) {
+                if bytes[i].is_ascii() && bytes[i + 1].is_ascii() {
+                    let mut m = bytes[..i].to_vec();
+                    m.extend_from_slice("\u{e9}".as_bytes());
+                    m.extend_from_slice(&bytes[i + 2..]);
+                    v.push((format!("xml-attr-wide:{attr_no}:{}", i - start), m));
+                }
+            }
+        }
         // very long value
         let mut m = bytes[..start].to_vec();
         m.extend(std::iter::repeat(b'a').take(70_000));
@@ -376,6 +388,77 @@ fn json_mutations(orig: &Value, thorough: bool) -> Vec<(String, Vec<u8>)> {
             v.push((format!("json-del:/{}", p.join("/")), serde_json::to_vec(&m).unwrap()));
         }
     }
+    // a multi-byte character at every position of every (short) string leaf:
+    // parsers that slice by byte offsets meet a non-boundary
+    for p in &paths {
+        let mut cur = orig;
+        let mut ok = true;
+        for k in p {
+            cur = match cur {
+                Value::Object(m) => match m.get(k) {
+                    Some(x) => x,
+                    None => {
+                        ok = false;
+                        break;
+                    }
+                },
+                Value::Array(a) => match a.get(k.parse::<usize>().unwrap_or(usize::MAX)) {
+                    Some(x) => x,
+                    None => {
+                        ok = false;
+                        break;
+                    }
+                },
+                _ => {
+                    ok = false;
+                    break;
+                }
+            };
+        }
+        if !ok {
+            continue;
+        }
+        let Value::String(text) = cur else { continue };
+        let chars: Vec<char> = text.chars().collect();
+        if chars.is_empty() || chars.len() > if thorough { 200 } else { 64 } {
+            continue;
+        }
+        let wide: &[char] = if thorough { &['\u{e9}', '\u{20ac}', '\u{10348}'] } else { &['\u{e9}'] };
+        // the same with the byte length preserved: n ASCII characters
+        // replaced by one n-byte character
+        for (wc, n) in [('\u{e9}', 2usize), ('\u{20ac}', 3), ('\u{10348}', 4)] {
+            if !thorough && n != 2 {
+                continue;
+            }
+            for i in 0..chars.len().saturating_sub(n - 1) {
+                if !chars[i..i + n].iter().all(|c| c.is_ascii()) {
+                    continue;
+                }
+                let mut c2: Vec<char> = chars[..i].to_vec();
+                c2.push(wc);
+                c2.extend_from_slice(&chars[i + n..]);
+                let mut m = orig.clone();
+                set_path(&mut m, p, Some(json!(c2.iter().collect::<String>())));
+                v.push((format!("json-wide-samelen:/{}:{i}:{n}", p.join("/")), serde_json::to_vec(&m).unwrap()));
+            }
+        }
+        for i in 0..chars.len() {
+            for wc in wide {
+                let mut c2 = chars.clone();
+                c2[i] = *wc;
+                let mut m = orig.clone();
+                set_path(&mut m, p, Some(json!(c2.iter().collect::<String>())));
+                v.push((format!("json-wide:/{}:{i}:{}", p.join("/"), *wc as u32), serde_json::to_vec(&m).unwrap()));
+                if thorough {
+                    let mut c3 = chars.clone();
+                    c3.insert(i, *wc);
+                    let mut m = orig.clone();
+                    set_path(&mut m, p, Some(json!(c3.iter().collect::<String>())));
+                    v.push((format!("json-wide-insert:/{}:{i}:{}", p.join("/"), *wc as u32), serde_json::to_vec(&m).unwrap()));
+                }
+            }
+        }
+    }
     // array duplication
     for p in &paths {
         let mut cur = orig;
@@ -490,7 +573,10 @@ fn build_api_fixture() -> Result<BTreeMap<String, Value>, String> {
     let csr = crate::ops::router_csr(1);
     b.insert(
         "bgpsec_updates".into(),
-        json!({"add": [{"asn": 65001, "csr": serde_json::to_value(&csr).map_err(|e| e.to_string())?}], "remove": []}),
+        json!({
+            "add": [{"asn": 65001, "csr": serde_json::to_value(&csr).map_err(|e| e.to_string())?}],
+            "remove": [serde_json::to_value(krill::api::bgpsec::BgpSecAsnKey::from(&krill::api::bgpsec::BgpSecDefinition { asn: rpki::resources::Asn::from_u32(65000), csr: crate::ops::router_csr(0) })).map_err(|e| e.to_string())?],
+        }),
     );
     let add = krill::api::admin::AddChildRequest { handle: ca("kid").convert(), resources: res("AS65009", "10.0.9.0/24", ""), id_cert: id.clone() };
     b.insert("child_add".into(), serde_json::to_value(&add).map_err(|e| e.to_string())?);
